@@ -101,7 +101,7 @@ theorem dmdtheta_eq_canon (x y amp xo yo sx sy th : ℝ) (hsx : sx ≠ 0) (hsy :
 
 /-! ### The six partial derivatives (single component) -/
 
-private theorem fun_gauss_eq {f : ℝ → ℝ} {g : ℝ → ℝ} (h : ∀ v, f v = g v) : f = g := funext h
+theorem fun_gauss_eq {f : ℝ → ℝ} {g : ℝ → ℝ} (h : ∀ v, f v = g v) : f = g := funext h
 
 /-- ∂model/∂amp = `dmds` (as coded: model/amp, hence amp ≠ 0) -/
 theorem hasDerivAt_amp (x y amp xo yo sx sy theta : ℝ) (hamp : amp ≠ 0) :
